@@ -172,7 +172,43 @@ theorem delete_removes (cfg : Cfg) (st : State) (id : String) (h : (step cfg st 
     · simp only [hv, not_true_eq_false, if_false, upd_self, and_self]
     · simp only [hv] at h; cases h
 
-/-! ### non-vacuity and the defect of the unrepaired code -/
+/-! ### the first read after the restart (read and write transforms)
+
+`load_from_data` restores the stored — transformed, user-level — value as the port's last value and hands it to the
+driver through the WRITE transform only; the first polling pass then reads the driver back through the READ transform.
+The theorems above speak about the port as the load leaves it; `firstRead` is what the hub reports from the first
+polling pass on. -/
+
+/-- the first read after the restart is determined by the port as it was before the restart: `read(write(v))` for a
+persisted, enabled, writable port, `v` otherwise -/
+theorem first_read_after_restart (cfg : Cfg) (ok : CfgOK cfg) (ops : List Op) (id : String) (p : Port) (v : PVal) :
+    let st := run cfg (init cfg) (ops ++ [.saveTick])
+    st.hub.ports id = some p → persistedOf p = true → p.value = some v →
+      ∃ q, (boot cfg st.store).hub.ports id = some q ∧ q.value = some v ∧ firstRead cfg q = firstRead cfg p := by
+  intro st hp hper hv
+  have hr := (load_save_roundtrip cfg ok ops).1 id
+  rw [hp] at hr
+  cases hq : (boot cfg st.store).hub.ports id with
+  | none => rw [hq] at hr; exact hr.elim
+  | some q =>
+    rw [hq] at hr
+    have hqv := hr.2.2 hper v hv
+    exact ⟨q, rfl, hqv, firstRead_congr cfg q p hr.1 hr.2.1 (by rw [hqv, hv])⟩
+
+/-- **persisted value survives the first read**: when the port's read transform undoes its write transform on the
+value (`InverseOn`; in particular when it has neither), the persisted value is still reported after the first polling
+pass that follows the restart. Without that hypothesis the statement is false for the code as it is:
+`non_inverse_transforms_drift` (known finding C07-non-inverse-transforms-drift). -/
+theorem persisted_value_survives_first_read (cfg : Cfg) (ok : CfgOK cfg) (ops : List Op) (id : String) (p : Port)
+    (v : PVal) (hi : InverseOn cfg p v) :
+    let st := run cfg (init cfg) (ops ++ [.saveTick])
+    st.hub.ports id = some p → persistedOf p = true → p.value = some v →
+      ∃ q, (boot cfg st.store).hub.ports id = some q ∧ q.value = some v ∧ firstRead cfg q = some v := by
+  intro st hp hper hv
+  obtain ⟨q, hq, hqv, hf⟩ := first_read_after_restart cfg ok ops id p v hp hper hv
+  exact ⟨q, hq, hqv, by rw [hf]; exact firstRead_of_inverse cfg p v hv hi⟩
+
+/-! ### non-vacuity and the defects of the code -/
 
 /-- a concrete configuration: texts are canonical as they are, except that `BAD(` does not parse -/
 def demoCfg (repaired : Bool) : Cfg :=
@@ -229,5 +265,78 @@ theorem unrepaired_partial_patch_lost :
     unfold attrOf
     rw [this]
     decide +kernel
+
+/-! ### known finding: transforms that are not mutually inverse -/
+
+/-- texts are canonical as they are; `ADD(10, $)` adds 10, `SUB($, 10)` subtracts 10 -/
+def driftCfg : Cfg :=
+  { canon := fun _ t => some t,
+    xf := fun t v => match v with
+      | .num n => if t = "ADD(10, $)" then some (.num (n + 10)) else if t = "SUB($, 10)" then some (.num (n - 10)) else some v
+      | .bool _ => some v,
+    statics := fun _ => none, hist := false, saveOnError := true, defName := "hub", hash := fun s => "h:" ++ s,
+    emptyHash := "h:" }
+
+theorem driftCfg_ok : CfgOK driftCfg := by
+  refine ⟨?_, rfl, ?_, by decide, ?_⟩
+  · intro k t c h
+    simp only [driftCfg, Option.some.injEq] at h ⊢
+  · intro id d h; cases h
+  · intro s h
+    have := congrArg String.length h
+    simp [driftCfg, String.length_append] at this
+
+/-- a persisted virtual port with a read transform and no write transform (what is left of a PATCH whose write
+transform was refused); its driver holds 1, the hub reports 11 -/
+def driftOps (tw : String) : List Op :=
+  [.addV "v1" numDef,
+   .patch "v1" [("transform_read", .str "ADD(10, $)"), ("transform_write", .str tw), ("persisted", .bool true)],
+   .valueChange "v1" (some (.num 11))]
+
+def portView (cfg : Cfg) (h : Hub) (id : String) : Option (Bool × Option PVal × Option PVal) :=
+  (h.ports id).map (fun p => (persistedOf p, p.value, firstRead cfg p))
+
+/-- **The code as it is violates the property for transforms that are not mutually inverse** (known finding
+C07-non-inverse-transforms-drift): the port reports 11 before the restart, the load restores 11 and writes 11 to the
+driver, and from the first polling pass on the hub reports 21 — the persisted value drifts by the read transform at
+every restart. -/
+theorem non_inverse_transforms_drift :
+    let st := run driftCfg (init driftCfg) (driftOps "" ++ [.saveTick])
+    ∃ p q, st.hub.ports "v1" = some p ∧ p.value = some (.num 11) ∧
+      (boot driftCfg st.store).hub.ports "v1" = some q ∧ q.value = some (.num 11) ∧
+      (boot driftCfg st.store).writes "v1" = [some (.num 11)] ∧
+      firstRead driftCfg q = some (.num 21) := by
+  intro st
+  have hview : portView driftCfg st.hub "v1" = some (true, some (.num 11), some (.num 21)) := by decide +kernel
+  unfold portView at hview
+  cases hp : st.hub.ports "v1" with
+  | none => rw [hp] at hview; cases hview
+  | some p =>
+    rw [hp] at hview
+    simp only [Option.map_some, Option.some.injEq, Prod.mk.injEq] at hview
+    obtain ⟨hper, hv, hf⟩ := hview
+    obtain ⟨q, hq, hqv, hfq⟩ := first_read_after_restart driftCfg driftCfg_ok (driftOps "") "v1" p (.num 11) hp hper hv
+    have hw := (persisted_value_written_once driftCfg driftCfg_ok (driftOps "") "v1" p hp).1 hper (.num 11) hv
+    refine ⟨p, q, rfl, hv, hq, hqv, ?_, by rw [hfq]; exact hf⟩
+    rw [hw.2]
+    have : (st.hub.ports "v1").map (fun p => loadWrites driftCfg p (.num 11)) = some [some (.num 11)] := by
+      decide +kernel
+    rw [hp] at this
+    simpa using this
+
+/-- non-vacuity of `InverseOn` and of `persisted_value_survives_first_read`: the same port with the inverse write
+transform `SUB($, 10)` reports 11 after the restart as well -/
+example :
+    let st := run driftCfg (init driftCfg) (driftOps "SUB($, 10)" ++ [.saveTick])
+    portView driftCfg st.hub "v1" = some (true, some (.num 11), some (.num 11)) := by decide +kernel
+
+example (p : Port) (h1 : p.attrs "transform_write" = some (.str "SUB($, 10)"))
+    (h2 : p.attrs "transform_read" = some (.str "ADD(10, $)")) (n : Int) : InverseOn driftCfg p (.num n) := by
+  intro w hw
+  simp only [writeXform, h1, driftCfg] at hw
+  simp only [readXform, h2, driftCfg]
+  simp at hw
+  subst hw
+  simp
 
 end QtVerif.C07
